@@ -170,16 +170,16 @@ Lemma step_end p st0 o rb ts : wf_state p (SQualifiedRuleDeclarationList :: st0)
     wf_state p' st0 ts.
 Proof.
   intros (Hi & Hl & Hst & Hlv & Hpe & Hkw & Hsty).
-  unfold parse_next. cbv zeta. change (prevend (set_err p false)) with (prevend p). rewrite Hpe.
-  destruct (pop_token_ows (next_fuel p) true (set_err p false) o TRightBrace rb ts Hi Hkw Hl eq_refl (next_fuel_pos p Hi))
+  unfold parse_next. cbv zeta. change (prevend (set_buf (set_err p false) [])) with (prevend p). rewrite Hpe.
+  destruct (pop_token_ows (next_fuel p) true (set_buf (set_err p false) []) o TRightBrace rb ts Hi Hkw Hl eq_refl (next_fuel_pos p Hi))
     as (z' & Hpop & Hl' & Hi').
   rewrite Hpop. cbn [pbind fst snd].
-  cbn [set_tok relex set_err pst]. rewrite Hst.
+  cbn [set_tok relex set_err pst set_buf]. rewrite Hst.
   unfold parse_qualified_rule_declaration_list. rewrite skip_semicolons_none by (cbn; discriminate). cbn [pbind]. cbv zeta.
-  cbn [set_tok ptt]. evis. cbn [orb]. unfold pop_st. cbn [set_tok relex set_err pst]. rewrite Hst. cbn [pbind].
-  eexists. split; [reflexivity|]. cbn [set_st set_tok relex set_err ptt pdata perr].
+  cbn [set_tok ptt]. evis. cbn [orb]. unfold pop_st. cbn [set_tok relex set_err pst set_buf]. rewrite Hst. cbn [pbind].
+  eexists. split; [reflexivity|]. cbn [set_st set_tok relex set_err ptt pdata perr set_buf].
   split; [reflexivity|]. split; [reflexivity|]. split; [reflexivity|].
-  unfold wf_state. cbn [set_st set_tok relex set_err pl pst plevel prevend keepws isstyle].
+  unfold wf_state. cbn [set_st set_tok relex set_err pl pst plevel prevend keepws isstyle set_buf].
   split; [exact Hi'|]. split; [exact Hl'|]. auto.
 Qed.
 
@@ -188,10 +188,10 @@ Lemma step_eof p o : wf_state p [SStylesheet] (optws o) ->
   exists p', parse_next p = POk (GError, p') /\ perr p' = false /\ ptt p' = TError.
 Proof.
   intros (Hi & Hl & Hst & Hlv & Hpe & Hkw & Hsty).
-  unfold parse_next. cbv zeta. change (prevend (set_err p false)) with (prevend p). rewrite Hpe.
-  destruct (pop_token_eof_ows (next_fuel p) true (set_err p false) o Hkw Hl (next_fuel_pos p Hi)) as (b & z' & Hpop).
+  unfold parse_next. cbv zeta. change (prevend (set_buf (set_err p false) [])) with (prevend p). rewrite Hpe.
+  destruct (pop_token_eof_ows (next_fuel p) true (set_buf (set_err p false) []) o Hkw Hl (next_fuel_pos p Hi)) as (b & z' & Hpop).
   rewrite Hpop. cbn [pbind fst snd].
-  cbn [set_tok relex set_err pst]. rewrite Hst. unfold parse_stylesheet. cbn [set_tok ptt]. evis. cbn [orb].
+  cbn [set_tok relex set_err pst set_buf]. rewrite Hst. unfold parse_stylesheet. cbn [set_tok ptt]. evis. cbn [orb].
   eexists. split; [reflexivity|]. split; reflexivity.
 Qed.
 
@@ -585,9 +585,9 @@ Proof.
     rewrite app_length. cbn [length]. rewrite app_length. rewrite app_length. cbn [length]. pose proof (src_toks_len sl) as Hsl.
     clear - Hsl. unfold wtok, tok in *. lia. }
   destruct HN as (f' & HN). assert (HF : (1 <= next_fuel p)%nat) by (apply next_fuel_pos; exact Hi).
-  unfold parse_next. cbv zeta. change (prevend (set_err p false)) with (prevend p). rewrite Hpe.
-  destruct (pop_token_ows (next_fuel p) true (set_err p false) o1 t1 b1 _ Hi Hkw Hl Hp1 HF) as (z1 & Hpop & Hl1 & Hi1).
-  rewrite Hpop. cbn [pbind fst snd]. cbn [set_tok relex set_err pst]. rewrite Hst.
+  unfold parse_next. cbv zeta. change (prevend (set_buf (set_err p false) [])) with (prevend p). rewrite Hpe.
+  destruct (pop_token_ows (next_fuel p) true (set_buf (set_err p false) []) o1 t1 b1 _ Hi Hkw Hl Hp1 HF) as (z1 & Hpop & Hl1 & Hi1).
+  rewrite Hpop. cbn [pbind fst snd]. cbn [set_tok relex set_err pst set_buf]. rewrite Hst.
   rewrite (rule_dispatch s st0 _ _ Hctx) by (cbn [set_tok ptt]; assumption).
   unfold parse_qualified_rule.
   assert (Hq : forall q, qualified_loop (next_fuel p) (next_fuel p) q true false true =
@@ -655,10 +655,10 @@ Lemma decl_head p s st0 o1 prop ts : decl_ctx s -> wf_state p (s :: st0) (optws 
     plevel p0 = 0 /\ prevend p0 = false /\ keepws p0 = false /\ isstyle p0 = true /\ perr p0 = false.
 Proof.
   intros Hctx (Hi & Hl & Hst & Hlv & Hpe & Hkw & Hsty).
-  unfold parse_next. cbv zeta. change (prevend (set_err p false)) with (prevend p). rewrite Hpe.
-  destruct (pop_token_ows (next_fuel p) true (set_err p false) o1 TIdent prop ts Hi Hkw Hl eq_refl (next_fuel_pos p Hi))
+  unfold parse_next. cbv zeta. change (prevend (set_buf (set_err p false) [])) with (prevend p). rewrite Hpe.
+  destruct (pop_token_ows (next_fuel p) true (set_buf (set_err p false) []) o1 TIdent prop ts Hi Hkw Hl eq_refl (next_fuel_pos p Hi))
     as (z1 & Hpop & Hl1 & Hi1).
-  rewrite Hpop. cbn [pbind fst snd]. cbn [set_tok relex set_err pst]. rewrite Hst.
+  rewrite Hpop. cbn [pbind fst snd]. cbn [set_tok relex set_err pst set_buf]. rewrite Hst.
   rewrite (decl_dispatch s st0 _ _ Hctx) by (cbn [set_tok ptt]; first [discriminate|reflexivity]).
   unfold parse_declaration_list. cbn [set_tok ptt]. evis. cbn [pbind].
   rewrite skip_semicolons_none by (cbn; discriminate). cbn [pbind set_tok ptt]. evis. cbn [pbind orb]. cbv zeta. cbn [set_tok ptt]. evis.
@@ -790,21 +790,21 @@ Lemma nest_head p s st0 o1 t1 b1 ts : decl_ctx s -> wf_state p (s :: st0) (optws
 Proof.
   intros Hctx (Hi & Hl & Hst & Hlv & Hpe & Hkw & Hsty) Hfirst. unfold nest_first in Hfirst. cbn [fst snd] in Hfirst.
   assert (Hp1 : plain_tok t1 = true) by (destruct t1; try discriminate Hfirst; reflexivity).
-  unfold parse_next. cbv zeta. change (prevend (set_err p false)) with (prevend p). rewrite Hpe.
-  destruct (pop_token_ows (next_fuel p) true (set_err p false) o1 t1 b1 ts Hi Hkw Hl Hp1 (next_fuel_pos p Hi))
+  unfold parse_next. cbv zeta. change (prevend (set_buf (set_err p false) [])) with (prevend p). rewrite Hpe.
+  destruct (pop_token_ows (next_fuel p) true (set_buf (set_err p false) []) o1 t1 b1 ts Hi Hkw Hl Hp1 (next_fuel_pos p Hi))
     as (z1 & Hpop & Hl1 & Hi1).
   assert (Hne : exists c b', b1 = c :: b').
   { destruct o1 as [wb|]; cbn [optws app] in Hl.
     - destruct (lexes_cons _ _ _ _ Hl) as (z0 & Hn0 & Hl0 & _). apply (lexes_nonempty z0 t1 b1 ts (css_inv_next _ _ _ _ Hi Hn0) Hl0).
     - apply (lexes_nonempty _ _ _ _ Hi Hl). }
-  rewrite Hpop. cbn [pbind fst snd]. cbn [set_tok relex set_err pst]. rewrite Hst.
+  rewrite Hpop. cbn [pbind fst snd]. cbn [set_tok relex set_err pst set_buf]. rewrite Hst.
   rewrite (decl_dispatch s st0 _ _ Hctx) by (cbn [set_tok ptt]; destruct t1; try discriminate Hfirst; first [discriminate|reflexivity]).
   destruct (is_t t1 TDelim) eqn:Ed.
   - apply is_t_eq in Ed. subst t1. cbn in Hfirst. apply negb_true_iff in Hfirst. destruct Hne as (c & b' & ->). cbn [hd0] in Hfirst.
     unfold parse_declaration_list; cbn [set_tok ptt]; evis; cbn [pbind];
     (rewrite skip_semicolons_none by (cbn; discriminate)); cbn [pbind set_tok ptt pdata]; evis. rewrite peekz_0. cbn [of_opt pbind].
     rewrite Hfirst. cbn [pbind]; cbv zeta; cbn [set_tok ptt]; evis;
-    cbn [orb andb isstyle set_tok relex set_err]; rewrite ?Hsty; cbn [orb andb];
+    cbn [orb andb isstyle set_tok relex set_err set_buf]; rewrite ?Hsty; cbn [orb andb];
     unfold parse_declaration; cbn [set_tok ptt pdata]; evis; cbv beta iota;
     (eexists; split; [reflexivity|];
      cbn [set_level set_buf set_tok relex set_err pl pbuf ptt pdata pst plevel prevend keepws isstyle perr];
@@ -812,7 +812,7 @@ Proof.
   - destruct t1; try discriminate Hfirst; try discriminate Ed;
     unfold parse_declaration_list; cbn [set_tok ptt]; evis; cbn [pbind];
     (rewrite skip_semicolons_none by (cbn; discriminate)); cbn [pbind set_tok ptt]; evis; cbn [pbind orb]; cbv zeta; cbn [set_tok ptt]; evis;
-    cbn [orb andb isstyle set_tok relex set_err]; rewrite ?Hsty; cbn [orb andb];
+    cbn [orb andb isstyle set_tok relex set_err set_buf]; rewrite ?Hsty; cbn [orb andb];
     unfold parse_declaration; cbn [set_tok ptt pdata]; evis; cbv beta iota;
     (eexists; split; [reflexivity|];
      cbn [set_level set_buf set_tok relex set_err pl pbuf ptt pdata pst plevel prevend keepws isstyle perr];
@@ -892,14 +892,14 @@ Lemma step_comment p o cb ts : wf_state p [SStylesheet] (optws o ++ (TComment, c
     wf_state p' [SStylesheet] ts.
 Proof.
   intros (Hi & Hl & Hst & Hlv & Hpe & Hkw & Hsty).
-  unfold parse_next. cbv zeta. change (prevend (set_err p false)) with (prevend p). rewrite Hpe.
-  destruct (pop_token_comment (next_fuel p) (set_err p false) o cb ts Hkw ltac:(cbn [set_err pst]; rewrite Hst; reflexivity)
+  unfold parse_next. cbv zeta. change (prevend (set_buf (set_err p false) [])) with (prevend p). rewrite Hpe.
+  destruct (pop_token_comment (next_fuel p) (set_buf (set_err p false) []) o cb ts Hkw ltac:(cbn [set_err pst set_buf]; rewrite Hst; reflexivity)
               (next_fuel_2 p) Hl Hi) as (z' & Hpop & Hl' & Hi').
-  rewrite Hpop. cbn [pbind fst snd]. cbn [set_tok relex set_err pst]. rewrite Hst.
+  rewrite Hpop. cbn [pbind fst snd]. cbn [set_tok relex set_err pst set_buf]. rewrite Hst.
   unfold parse_stylesheet. cbn [set_tok ptt]. evis. cbn [orb].
-  eexists. split; [reflexivity|]. cbn [set_tok relex set_err ptt pdata perr].
+  eexists. split; [reflexivity|]. cbn [set_tok relex set_err ptt pdata perr set_buf].
   split; [reflexivity|]. split; [reflexivity|]. split; [reflexivity|].
-  unfold wf_state. cbn [set_tok relex set_err pl pst plevel prevend keepws isstyle].
+  unfold wf_state. cbn [set_tok relex set_err pl pst plevel prevend keepws isstyle set_buf].
   split; [exact Hi'|]. split; [exact Hl'|]. auto.
 Qed.
 
@@ -911,13 +911,13 @@ Lemma step_cd p o t b ts : wf_state p [SStylesheet] (optws o ++ (t, b) :: ts) ->
 Proof.
   intros (Hi & Hl & Hst & Hlv & Hpe & Hkw & Hsty) Hcd.
   assert (Hp : plain_tok t = true) by (destruct t; try discriminate Hcd; reflexivity).
-  unfold parse_next. cbv zeta. change (prevend (set_err p false)) with (prevend p). rewrite Hpe.
-  destruct (pop_token_ows (next_fuel p) true (set_err p false) o t b ts Hi Hkw Hl Hp (next_fuel_pos p Hi)) as (z' & Hpop & Hl' & Hi').
-  rewrite Hpop. cbn [pbind fst snd]. cbn [set_tok relex set_err pst]. rewrite Hst.
+  unfold parse_next. cbv zeta. change (prevend (set_buf (set_err p false) [])) with (prevend p). rewrite Hpe.
+  destruct (pop_token_ows (next_fuel p) true (set_buf (set_err p false) []) o t b ts Hi Hkw Hl Hp (next_fuel_pos p Hi)) as (z' & Hpop & Hl' & Hi').
+  rewrite Hpop. cbn [pbind fst snd]. cbn [set_tok relex set_err pst set_buf]. rewrite Hst.
   unfold parse_stylesheet. cbn [set_tok ptt]. unfold is_cd in Hcd. rewrite Hcd.
-  eexists. split; [reflexivity|]. cbn [set_tok relex set_err ptt pdata perr].
+  eexists. split; [reflexivity|]. cbn [set_tok relex set_err ptt pdata perr set_buf].
   split; [reflexivity|]. split; [reflexivity|]. split; [reflexivity|].
-  unfold wf_state. cbn [set_tok relex set_err pl pst plevel prevend keepws isstyle].
+  unfold wf_state. cbn [set_tok relex set_err pl pst plevel prevend keepws isstyle set_buf].
   split; [exact Hi'|]. split; [exact Hl'|]. auto.
 Qed.
 
@@ -1006,10 +1006,10 @@ Proof.
     rewrite app_length. cbn [length]. rewrite app_length. cbn [length]. rewrite app_length. cbn [length].
     clear. unfold tok. lia. }
   destruct HN as (f' & HN). assert (HF : (1 <= next_fuel p)%nat) by (apply next_fuel_pos; exact Hi).
-  unfold parse_next. cbv zeta. change (prevend (set_err p false)) with (prevend p). rewrite Hpe.
-  destruct (pop_token_ows (next_fuel p) true (set_err p false) o1 TCustomPropertyName name _ Hi Hkw Hl eq_refl HF)
+  unfold parse_next. cbv zeta. change (prevend (set_buf (set_err p false) [])) with (prevend p). rewrite Hpe.
+  destruct (pop_token_ows (next_fuel p) true (set_buf (set_err p false) []) o1 TCustomPropertyName name _ Hi Hkw Hl eq_refl HF)
     as (z1 & Hpop & Hl1 & Hi1).
-  rewrite Hpop. cbn [pbind fst snd]. cbn [set_tok relex set_err pst]. rewrite Hst.
+  rewrite Hpop. cbn [pbind fst snd]. cbn [set_tok relex set_err pst set_buf]. rewrite Hst.
   rewrite (custom_dispatch s st0 _ _ Hctx) by reflexivity.
   unfold parse_custom_property.
   match goal with |- context [pop_token _ false ?q] => set (q0 := q) end.
@@ -1223,10 +1223,10 @@ Proof.
   intros Hs1 Hs2 (Hi & Hl & Hst & Hlv & Hpe & Hkw & Hsty).
   destruct (at_rule_h_total (to_lower name)) as (h & Hh); [rewrite len_to_lower; eapply lexes_at_len; eassumption|].
   exists h.
-  unfold parse_next. cbv zeta. change (prevend (set_err p false)) with (prevend p). rewrite Hpe.
-  destruct (pop_token_ows (next_fuel p) true (set_err p false) o1 TAtKeyword name ts Hi Hkw Hl eq_refl (next_fuel_pos p Hi))
+  unfold parse_next. cbv zeta. change (prevend (set_buf (set_err p false) [])) with (prevend p). rewrite Hpe.
+  destruct (pop_token_ows (next_fuel p) true (set_buf (set_err p false) []) o1 TAtKeyword name ts Hi Hkw Hl eq_refl (next_fuel_pos p Hi))
     as (z1 & Hpop & Hl1 & Hi1).
-  rewrite Hpop. cbn [pbind fst snd]. cbn [set_tok relex set_err pst]. rewrite Hst.
+  rewrite Hpop. cbn [pbind fst snd]. cbn [set_tok relex set_err pst set_buf]. rewrite Hst.
   rewrite (at_dispatch s st0 _ _ Hs1 Hs2) by reflexivity.
   rewrite parse_at_rule_eq. cbn [set_tok pdata ptt]. rewrite Hh. cbn [pbind].
   eexists. split; [reflexivity|]. split; [reflexivity|].
@@ -1278,6 +1278,88 @@ Proof.
     split; [exact Hk2|rewrite S7; exact Hsty0].
 Qed.
 
+(* --- the block of an unknown at-rule: a stream of tokens ---------------------------------------------------------------- *)
+(* inside the block: bracket level lv; first = no token of the block has been read yet (keepWS is still off, so whitespace
+   directly after the '{' is skipped; afterwards whitespace tokens are reported like any other token) *)
+Definition wf_unk (p : parser) (lv : Z) (first : bool) (st : list pstate) (toks : list tok) : Prop :=
+  css_inv (pl p) /\ lexes (pl p) toks /\ pst p = SAtRuleUnknown :: st /\ plevel p = lv /\ prevend p = false /\
+  keepws p = negb first /\ isstyle p = true.
+
+Lemma pop_token_kw F allow p t b ts : keepws p = true -> is_t t TComment = false -> css_inv (pl p) ->
+  lexes (pl p) ((t, b) :: ts) ->
+  exists z', pop_token F allow p = POk (t, b, relex p z' false false) /\ lexes z' ts /\ css_inv z'.
+Proof.
+  intros Hkw Hc Hi Hl. destruct (lexes_cons _ _ _ _ Hl) as (z' & Hn & Hl' & _).
+  exists z'. split; [|split; [exact Hl'|eapply css_inv_next; eassumption]].
+  unfold pop_token, lex_next. cbn [set_prevcomment set_prevws pl]. rewrite Hn.
+  cbn [pbind fst snd]. rewrite pop_loop_eq. cbn [set_pl set_prevcomment set_prevws keepws]. rewrite Hkw, Hc. cbn [negb andb orb].
+  destruct p; reflexivity.
+Qed.
+
+(* a token of the block: not a comment (comments are dropped), not the end of input, a closing bracket only inside an
+   open one; the first token is not whitespace, a later one has no skipped whitespace before it *)
+Definition utok_ok (lv : Z) (first : bool) (w : ws_t) (t : ttype) : Prop :=
+  is_t t TComment = false /\ is_t t TError = false /\ (closes t = true -> 0 < lv) /\
+  (if first then is_t t TWhitespace = false else w = None).
+
+Lemma step_utok p lv first st w t b ts : wf_unk p lv first st (optws w ++ (t, b) :: ts) -> utok_ok lv first w t ->
+  exists p', parse_next p = POk (GToken, p') /\ ptt p' = t /\ pdata p' = b /\ pbuf p' = [] /\ perr p' = false /\
+    wf_unk p' (tok_lv lv t) false st ts.
+Proof.
+  intros (Hi & Hl & Hst & Hlv & Hpe & Hkw & Hsty) (Hc & He & Hcl & Hf).
+  unfold parse_next. cbv zeta. change (prevend (set_buf (set_err p false) [])) with (prevend p). rewrite Hpe.
+  assert (Hpop : exists z' wf, pop_token (next_fuel p) true (set_buf (set_err p false) []) =
+                   POk (t, b, relex (set_buf (set_err p false) []) z' wf false) /\ lexes z' ts /\ css_inv z').
+  { destruct first; cbn [negb] in Hkw.
+    - assert (Hp : plain_tok t = true) by (unfold plain_tok; rewrite Hf, Hc; reflexivity).
+      destruct (pop_token_ows (next_fuel p) true (set_buf (set_err p false) []) w t b ts Hi Hkw Hl Hp (next_fuel_pos p Hi)) as (z' & H1 & H2 & H3).
+      exists z', (isws w). auto.
+    - subst w. cbn [optws app] in Hl.
+      destruct (pop_token_kw (next_fuel p) true (set_buf (set_err p false) []) t b ts Hkw Hc Hi Hl) as (z' & H1 & H2 & H3).
+      exists z', false. auto. }
+  destruct Hpop as (z' & wf & Hpop & Hl' & Hi'). rewrite Hpop. cbn [pbind fst snd].
+  cbn [set_tok relex set_err set_buf pst]. rewrite Hst.
+  unfold parse_at_rule_unknown. cbv zeta. cbn [set_keepws set_tok relex set_err set_buf ptt plevel]. rewrite He, Hlv.
+  assert (Hrb : is_t t TRightBrace && (lv =? 0) = false).
+  { destruct (is_t t TRightBrace) eqn:E; [|reflexivity]. apply is_t_eq in E. subst t. specialize (Hcl eq_refl). cbn [andb]. lia. }
+  rewrite Hrb. cbn [orb].
+  eexists. split; [reflexivity|].
+  destruct (adjust_level_f (set_keepws (set_tok (relex (set_buf (set_err p false) []) z' wf false) t b) true) t) as (F1 & _ & _ & F4).
+  assert (Hsame : forall q, pl (adjust_level q t) = pl q /\ ptt (adjust_level q t) = ptt q /\ pdata (adjust_level q t) = pdata q /\
+                            perr (adjust_level q t) = perr q /\ pst (adjust_level q t) = pst q /\ prevend (adjust_level q t) = prevend q /\
+                            keepws (adjust_level q t) = keepws q /\ isstyle (adjust_level q t) = isstyle q).
+  { intros q. unfold adjust_level. destruct (opens t); [repeat split|]. destruct (closes t); repeat split. }
+  match goal with |- ptt (adjust_level ?q t) = _ /\ _ => destruct (Hsame q) as (G1 & G2 & G3 & G4 & G5 & G6 & G7 & G8) end.
+  rewrite G2, G3, F1, G4. cbn [set_keepws set_tok relex set_err set_buf ptt pdata pbuf perr].
+  split; [reflexivity|]. split; [reflexivity|]. split; [reflexivity|]. split; [reflexivity|].
+  unfold wf_unk. rewrite G1, G5, F4, G6, G7, G8. cbn [set_keepws set_tok relex set_err set_buf pl pst plevel prevend keepws isstyle].
+  split; [exact Hi'|]. split; [exact Hl'|]. split; [exact Hst|]. split; [rewrite Hlv; reflexivity|]. auto.
+Qed.
+
+Lemma step_uend p first st w3 rb ts : wf_unk p 0 first st (optws w3 ++ (TRightBrace, rb) :: ts) -> (first = false -> w3 = None) ->
+  exists p', parse_next p = POk (GEndAtRule, p') /\ ptt p' = TRightBrace /\ pdata p' = rb /\ pbuf p' = [] /\ perr p' = false /\
+    wf_state p' st ts.
+Proof.
+  intros (Hi & Hl & Hst & Hlv & Hpe & Hkw & Hsty) Hf.
+  unfold parse_next. cbv zeta. change (prevend (set_buf (set_err p false) [])) with (prevend p). rewrite Hpe.
+  assert (Hpop : exists z' wf, pop_token (next_fuel p) true (set_buf (set_err p false) []) =
+                   POk (TRightBrace, rb, relex (set_buf (set_err p false) []) z' wf false) /\ lexes z' ts /\ css_inv z').
+  { destruct first; cbn [negb] in Hkw.
+    - destruct (pop_token_ows (next_fuel p) true (set_buf (set_err p false) []) w3 TRightBrace rb ts Hi Hkw Hl eq_refl (next_fuel_pos p Hi)) as (z' & H1 & H2 & H3).
+      exists z', (isws w3). auto.
+    - rewrite (Hf eq_refl) in Hl. cbn [optws app] in Hl.
+      destruct (pop_token_kw (next_fuel p) true (set_buf (set_err p false) []) TRightBrace rb ts Hkw eq_refl Hi Hl) as (z' & H1 & H2 & H3).
+      exists z', false. auto. }
+  destruct Hpop as (z' & wf & Hpop & Hl' & Hi'). rewrite Hpop. cbn [pbind fst snd].
+  cbn [set_tok relex set_err set_buf pst]. rewrite Hst.
+  unfold parse_at_rule_unknown. cbv zeta. cbn [set_keepws set_tok relex set_err set_buf ptt plevel]. rewrite Hlv. evis. cbn [Z.eqb andb orb].
+  unfold pop_st. cbn [set_keepws set_tok relex set_err set_buf pst]. rewrite Hst. cbn [pbind].
+  eexists. split; [reflexivity|]. cbn [set_keepws set_st set_tok relex set_err set_buf ptt pdata pbuf perr].
+  split; [reflexivity|]. split; [reflexivity|]. split; [reflexivity|]. split; [reflexivity|].
+  unfold wf_state. cbn [set_keepws set_st set_tok relex set_err set_buf pl pst plevel prevend keepws isstyle].
+  split; [exact Hi'|]. split; [exact Hl'|]. auto.
+Qed.
+
 (* --- closing a block --------------------------------------------------------------------------------------------------- *)
 (* the open blocks: a ruleset, the rule block of @media ..., the declaration block of @font-face / @page *)
 Inductive frame := FRule | FAtRules | FAtDecls.
@@ -1291,19 +1373,19 @@ Lemma step_close p f st0 o rb ts : wf_state p (frame_state f :: st0) (optws o ++
     wf_state p' st0 ts.
 Proof.
   intros (Hi & Hl & Hst & Hlv & Hpe & Hkw & Hsty).
-  unfold parse_next. cbv zeta. change (prevend (set_err p false)) with (prevend p). rewrite Hpe.
-  destruct (pop_token_ows (next_fuel p) true (set_err p false) o TRightBrace rb ts Hi Hkw Hl eq_refl (next_fuel_pos p Hi))
+  unfold parse_next. cbv zeta. change (prevend (set_buf (set_err p false) [])) with (prevend p). rewrite Hpe.
+  destruct (pop_token_ows (next_fuel p) true (set_buf (set_err p false) []) o TRightBrace rb ts Hi Hkw Hl eq_refl (next_fuel_pos p Hi))
     as (z' & Hpop & Hl' & Hi').
   rewrite Hpop. cbn [pbind fst snd].
-  cbn [set_tok relex set_err pst]. rewrite Hst.
+  cbn [set_tok relex set_err pst set_buf]. rewrite Hst.
   destruct f; cbn [frame_state close_g];
     [unfold parse_qualified_rule_declaration_list; rewrite skip_semicolons_none by (cbn; discriminate); cbn [pbind]; cbv zeta
     |unfold parse_at_rule_rule_list
     |unfold parse_at_rule_declaration_list; rewrite skip_semicolons_none by (cbn; discriminate); cbn [pbind]; cbv zeta];
-    cbn [set_tok ptt]; evis; cbn [orb]; unfold pop_st; cbn [set_tok relex set_err pst]; rewrite Hst; cbn [pbind];
-    (eexists; split; [reflexivity|]; cbn [set_st set_tok relex set_err ptt pdata perr];
+    cbn [set_tok ptt]; evis; cbn [orb]; unfold pop_st; cbn [set_tok relex set_err pst set_buf]; rewrite Hst; cbn [pbind];
+    (eexists; split; [reflexivity|]; cbn [set_st set_tok relex set_err ptt pdata perr set_buf];
      split; [reflexivity|]; split; [reflexivity|]; split; [reflexivity|];
-     unfold wf_state; cbn [set_st set_tok relex set_err pl pst plevel prevend keepws isstyle];
+     unfold wf_state; cbn [set_st set_tok relex set_err pl pst plevel prevend keepws isstyle set_buf];
      split; [exact Hi'|]; split; [exact Hl'|]; auto).
 Qed.
 
@@ -1313,16 +1395,16 @@ Lemma step_close_pend p f st0 ts : wf_pend p (frame_state f :: st0) ts ->
     wf_state p' st0 ts.
 Proof.
   intros (Hi & Hl & Hst & Hlv & Hpe & Hkw & Hsty).
-  unfold parse_next. cbv zeta. change (prevend (set_err p false)) with (prevend p). rewrite Hpe. cbn [pbind].
-  cbn [set_prevend set_tok set_err pst]. rewrite Hst.
+  unfold parse_next. cbv zeta. change (prevend (set_buf (set_err p false) [])) with (prevend p). rewrite Hpe. cbn [pbind].
+  cbn [set_prevend set_tok set_err pst set_buf]. rewrite Hst.
   destruct f; cbn [frame_state close_g];
     [unfold parse_qualified_rule_declaration_list; rewrite skip_semicolons_none by (cbn; discriminate); cbn [pbind]; cbv zeta
     |unfold parse_at_rule_rule_list
     |unfold parse_at_rule_declaration_list; rewrite skip_semicolons_none by (cbn; discriminate); cbn [pbind]; cbv zeta];
-    cbn [set_prevend set_tok ptt]; evis; cbn [orb]; unfold pop_st; cbn [set_prevend set_tok set_err pst]; rewrite Hst; cbn [pbind];
-    (eexists; split; [reflexivity|]; cbn [set_st set_prevend set_tok set_err ptt pdata perr];
+    cbn [set_prevend set_tok ptt]; evis; cbn [orb]; unfold pop_st; cbn [set_prevend set_tok set_err pst set_buf]; rewrite Hst; cbn [pbind];
+    (eexists; split; [reflexivity|]; cbn [set_st set_prevend set_tok set_err ptt pdata perr set_buf];
      split; [reflexivity|]; split; [reflexivity|]; split; [reflexivity|];
-     unfold wf_state; cbn [set_st set_prevend set_tok set_err pl pst plevel prevend keepws isstyle];
+     unfold wf_state; cbn [set_st set_prevend set_tok set_err pl pst plevel prevend keepws isstyle set_buf];
      split; [exact Hi|]; split; [exact Hl|]; auto).
 Qed.
 
@@ -1341,7 +1423,8 @@ Inductive ev :=
   | ECustom (w1 : ws_t) (name : list Z) (w2 : ws_t) (raw : list tok) (semi : bool)   (* --name ':' raw tokens [';'] *)
   | EAtRule (w1 : ws_t) (name : list Z) (pre : list wtok) (w2 : ws_t) (semi : bool)   (* @name prelude [w2 ';'] *)
   | EBeginAtRule (w1 : ws_t) (name : list Z) (pre : list wtok) (w2 : ws_t)            (* @name prelude w2 '{' *)
-  | EEndAtRule (w3 : ws_t).                                                            (* w3 '}' of an at-rule block *)
+  | EEndAtRule (w3 : ws_t)                                                             (* w3 '}' of an at-rule block *)
+  | EUTok (w : ws_t) (t : ttype) (b : list Z).           (* a token inside the block of an unknown at-rule *)
 
 Definition term_toks (w : ws_t) (semi : bool) : list tok := if semi then optws w ++ [(TSemicolon, [59])] else [].
 Definition decl_toks (d : decl_t) : list tok :=
@@ -1358,6 +1441,7 @@ Definition ev_toks (e : ev) : list tok :=
   | EAtRule w1 name pre w2 semi => optws w1 ++ (TAtKeyword, name) :: src_toks pre ++ term_toks w2 semi
   | EBeginAtRule w1 name pre w2 => optws w1 ++ (TAtKeyword, name) :: src_toks pre ++ optws w2 ++ [(TLeftBrace, [123])]
   | EEndAtRule w3 => optws w3 ++ [(TRightBrace, [125])]
+  | EUTok w t b => optws w ++ [(t, b)]
   end.
 
 Definition decl_ok (d : decl_t) : Prop := d_vals d <> [] /\ toks_ok 0 (d_vals d) /\ lv_after 0 (d_vals d) = 0.
@@ -1375,27 +1459,41 @@ Definition closer_tight (r : list ev) : Prop := match r with (EClose None | EEnd
    @font-face / @page; rulesets anywhere (nested ones inside such blocks); at-rules anywhere, the kind of their block
    decided by the hash of the name (at_st); comments, CDO and CDC at the top level; a unit without its ';' must be
    followed by the '}' of its block; every '}' closes the innermost block; all closed at the end *)
-Fixpoint evs_ok (fs : list frame) (l : list ev) : Prop :=
+(* m = Some (lv, first) inside the block of an unknown at-rule (bracket level, no token read yet): only tokens and the
+   closing '}' at level 0 *)
+Fixpoint evs_okm (m : option (Z * bool)) (fs : list frame) (l : list ev) {struct l} : Prop :=
+  match m with
+  | Some (lv, first) =>
+      match l with
+      | EUTok w t _ :: r => utok_ok lv first w t /\ evs_okm (Some (tok_lv lv t, false)) fs r
+      | EEndAtRule w3 :: r => lv = 0 /\ (first = false -> w3 = None) /\ evs_okm None fs r
+      | _ => False
+      end
+  | None =>
   match l with
   | [] => fs = []
-  | EDecl d :: r => decl_top fs /\ decl_ok d /\ (d_semi d = false -> closer_next r) /\ evs_ok fs r
+  | EDecl d :: r => decl_top fs /\ decl_ok d /\ (d_semi d = false -> closer_next r) /\ evs_okm None fs r
   | EOpen sel _ :: r =>
-      sel_ok (match fs with (FRule | FAtDecls) :: _ => nest_first | _ => fun x => sel_first (fst x) end) sel /\ evs_ok (FRule :: fs) r
-  | EClose _ :: r => match fs with FRule :: fs' => evs_ok fs' r | _ => False end
-  | EComment _ _ :: r => fs = [] /\ evs_ok fs r
-  | EToken _ t _ :: r => fs = [] /\ is_cd t = true /\ evs_ok fs r
+      sel_ok (match fs with (FRule | FAtDecls) :: _ => nest_first | _ => fun x => sel_first (fst x) end) sel /\ evs_okm None (FRule :: fs) r
+  | EClose _ :: r => match fs with FRule :: fs' => evs_okm None fs' r | _ => False end
+  | EComment _ _ :: r => fs = [] /\ evs_okm None fs r
+  | EToken _ t _ :: r => fs = [] /\ is_cd t = true /\ evs_okm None fs r
   | ECustom _ _ _ raw semi :: r =>
-      (decl_top fs \/ (fs = [] /\ semi = true)) /\ raw_ok 0 raw /\ raw_lv 0 raw = 0 /\ (semi = false -> closer_tight r) /\ evs_ok fs r
-  | EAtRule _ _ pre _ semi :: r => toks_ok 0 pre /\ lv_after 0 pre = 0 /\ (semi = false -> fs <> [] /\ closer_next r) /\ evs_ok fs r
+      (decl_top fs \/ (fs = [] /\ semi = true)) /\ raw_ok 0 raw /\ raw_lv 0 raw = 0 /\ (semi = false -> closer_tight r) /\ evs_okm None fs r
+  | EAtRule _ _ pre _ semi :: r => toks_ok 0 pre /\ lv_after 0 pre = 0 /\ (semi = false -> fs <> [] /\ closer_next r) /\ evs_okm None fs r
   | EBeginAtRule _ name pre _ :: r =>
       toks_ok 0 pre /\ lv_after 0 pre = 0 /\
       match at_st name with
-      | SAtRuleRuleList => evs_ok (FAtRules :: fs) r
-      | SAtRuleDeclarationList => evs_ok (FAtDecls :: fs) r
+      | SAtRuleRuleList => evs_okm None (FAtRules :: fs) r
+      | SAtRuleDeclarationList => evs_okm None (FAtDecls :: fs) r
+      | SAtRuleUnknown => evs_okm (Some (0, true)) fs r
       | _ => False
       end
-  | EEndAtRule _ :: r => match fs with (FAtRules | FAtDecls) :: fs' => evs_ok fs' r | _ => False end
+  | EEndAtRule _ :: r => match fs with (FAtRules | FAtDecls) :: fs' => evs_okm None fs' r | _ => False end
+  | EUTok _ _ _ :: _ => False
+  end
   end.
+Definition evs_ok (fs : list frame) (l : list ev) : Prop := evs_okm None fs l.
 
 (* what the caller sees of one call: grammar type, token type, data, and Values() for the units that set them *)
 Definition unit_t := (gtype * ttype * list Z * list tok)%type.
@@ -1417,6 +1515,7 @@ Definition ev_unit (e : ev) : unit_t :=
   | EAtRule _ name pre _ _ => (GAtRule, TAtKeyword, to_lower name, at_buf true false pre)
   | EBeginAtRule _ name pre _ => (GBeginAtRule, TAtKeyword, to_lower name, at_buf true false pre)
   | EEndAtRule _ => (GEndAtRule, TRightBrace, [125], [])
+  | EUTok _ t b => (GToken, t, b, [])
   end.
 
 Definition last_state (p : parser) (tr : list (gtype * parser)) : parser :=
@@ -1444,7 +1543,7 @@ Lemma close_pending fs e2 evs' p1 L : closer e2 -> evs_ok fs (e2 :: evs') -> wf_
   exists fs' g2 p2, parse_next p1 = POk (g2, p2) /\ view (g2, p2) = ev_unit e2 /\ perr p2 = false /\
     wf_state p2 (stack fs') L /\ evs_ok fs' evs'.
 Proof.
-  intros Hc Hok Hw. destruct e2; try contradiction; cbn [evs_ok] in Hok.
+  intros Hc Hok Hw. unfold evs_ok in *. destruct e2; try contradiction; cbn [evs_okm] in Hok.
   - destruct fs as [|[| |] fs]; try contradiction.
     destruct (step_close_pend p1 FRule (stack fs) L Hw) as (p2 & Hn & Ht & Hd & He & Hw2).
     exists fs, GEndRuleset, p2. split; [exact Hn|]. split; [unfold view; cbn [fst snd ev_unit]; rewrite Ht, Hd; reflexivity|]. auto.
@@ -1458,29 +1557,42 @@ Qed.
 Lemma closer_toks e2 : closer e2 -> exists w3, ev_toks e2 = optws w3 ++ [(TRightBrace, [125])].
 Proof. destruct e2; try contradiction; intros _; eexists; reflexivity. Qed.
 
-Lemma evs_run_n : forall n evs fs p rest, (length evs <= n)%nat ->
-  wf_state p (stack fs) (concat (map ev_toks evs) ++ rest) -> evs_ok fs evs ->
+Definition wf_m (m : option (Z * bool)) (p : parser) (fs : list frame) (toks : list tok) : Prop :=
+  match m with None => wf_state p (stack fs) toks | Some (lv, first) => wf_unk p lv first (stack fs) toks end.
+
+Lemma evs_run_n : forall n evs m fs p rest, (length evs <= n)%nat ->
+  wf_m m p fs (concat (map ev_toks evs) ++ rest) -> evs_okm m fs evs ->
   exists tr, parse_run (length evs) p = POk tr /\ map view tr = map ev_unit evs /\ no_err tr /\
     wf_state (last_state p tr) [SStylesheet] rest.
 Proof.
-  induction n as [|n IH]; intros evs fs p rest Hlen Hw Hok.
-  { destruct evs; [|cbn in Hlen; lia]. cbn [evs_ok] in Hok. subst fs. exists []. cbn [map concat length parse_run app] in *.
-    split; [reflexivity|]. split; [reflexivity|]. split; [constructor|exact Hw]. }
+  induction n as [|n IH]; intros evs m fs p rest Hlen Hw Hok.
+  { destruct evs; [|cbn in Hlen; lia]. destruct m as [[lv first]|]; [contradiction|]. cbn [evs_okm] in Hok. subst fs. exists [].
+    cbn [map concat length parse_run app wf_m] in *. split; [reflexivity|]. split; [reflexivity|]. split; [constructor|exact Hw]. }
   destruct evs as [|e evs].
-  { cbn [evs_ok] in Hok. subst fs. exists []. cbn [map concat length parse_run app] in *.
+  { destruct m as [[lv first]|]; [contradiction|]. cbn [evs_okm] in Hok. subst fs. exists []. cbn [map concat length parse_run app wf_m] in *.
     split; [reflexivity|]. split; [reflexivity|]. split; [constructor|exact Hw]. }
   cbn [length] in Hlen.
-  assert (Hcons : forall g p1 (u : unit_t) fs', parse_next p = POk (g, p1) -> view (g, p1) = u -> perr p1 = false ->
-                  wf_state p1 (stack fs') (concat (map ev_toks evs) ++ rest) -> evs_ok fs' evs -> u = ev_unit e ->
+  assert (Hcons : forall g p1 (u : unit_t) m' fs', parse_next p = POk (g, p1) -> view (g, p1) = u -> perr p1 = false ->
+                  wf_m m' p1 fs' (concat (map ev_toks evs) ++ rest) -> evs_okm m' fs' evs -> u = ev_unit e ->
                   exists tr, parse_run (length (e :: evs)) p = POk tr /\ map view tr = map ev_unit (e :: evs) /\ no_err tr /\
                     wf_state (last_state p tr) [SStylesheet] rest).
-  { intros g p1 u fs' Hn Hv He Hw1 Hok1 Hu.
-    destruct (IH evs fs' p1 rest ltac:(lia) Hw1 Hok1) as (tr & Hrun & Hview & Hne & Hlast).
+  { intros g p1 u m' fs' Hn Hv He Hw1 Hok1 Hu.
+    destruct (IH evs m' fs' p1 rest ltac:(lia) Hw1 Hok1) as (tr & Hrun & Hview & Hne & Hlast).
     exists ((g, p1) :: tr). split; [|split; [|split]].
     - cbn [length parse_run]. rewrite Hn. cbn [pbind snd]. rewrite Hrun. reflexivity.
     - cbn [map]. rewrite Hview, Hv, Hu. reflexivity.
     - constructor; [exact He|exact Hne].
     - rewrite last_state_cons. exact Hlast. }
+  (* inside the block of an unknown at-rule *)
+  destruct m as [[lv first]|].
+  { cbn [wf_m] in Hw. destruct e; try contradiction; cbn [evs_okm] in Hok; cbn [map concat ev_toks] in Hw.
+    - destruct Hok as (H0 & Hf & Hok). subst lv. repeat (rewrite <- app_assoc in Hw; cbn [app] in Hw).
+      destruct (step_uend p first _ w3 [125] _ Hw Hf) as (p1 & Hn & Ht & Hdd & Hb & He & Hw1).
+      eapply (Hcons _ p1 _ None fs Hn eq_refl He Hw1 Hok). unfold view. cbn [fst snd ev_unit]. rewrite Ht, Hdd. reflexivity.
+    - destruct Hok as (Hu & Hok). repeat (rewrite <- app_assoc in Hw; cbn [app] in Hw).
+      destruct (step_utok p lv first _ w t b _ Hw Hu) as (p1 & Hn & Ht & Hdd & Hb & He & Hw1).
+      eapply (Hcons _ p1 _ (Some (tok_lv lv t, false)) fs Hn eq_refl He Hw1 Hok). unfold view. cbn [fst snd ev_unit]. rewrite Ht, Hdd. reflexivity. }
+  cbn [wf_m] in Hw.
   (* the unit is ended by the '}' of its block: two calls *)
   assert (Hcons2 : forall g p1 e2 evs', evs = e2 :: evs' -> closer e2 -> parse_next p = POk (g, p1) -> view (g, p1) = ev_unit e ->
                    perr p1 = false -> wf_pend p1 (stack fs) (concat (map ev_toks evs') ++ rest) -> evs_ok fs evs ->
@@ -1489,22 +1601,22 @@ Proof.
   { intros g p1 e2 evs' -> Hc Hn Hv He Hw1 Hok1.
     destruct (close_pending fs e2 evs' p1 _ Hc Hok1 Hw1) as (fs' & g2 & p2 & Hn2 & Hv2 & He2 & Hw2 & Hok2).
     cbn [length] in Hlen.
-    destruct (IH evs' fs' p2 rest ltac:(lia) Hw2 Hok2) as (tr & Hrun & Hview & Hne & Hlast).
+    destruct (IH evs' None fs' p2 rest ltac:(lia) Hw2 Hok2) as (tr & Hrun & Hview & Hne & Hlast).
     exists ((g, p1) :: (g2, p2) :: tr). split; [|split; [|split]].
     - cbn [length parse_run]. rewrite Hn. cbn [pbind snd]. rewrite Hn2. cbn [pbind snd]. rewrite Hrun. reflexivity.
     - cbn [map]. rewrite Hview, Hv, Hv2. reflexivity.
     - constructor; [exact He|]. constructor; [exact He2|exact Hne].
     - rewrite !last_state_cons. exact Hlast. }
   destruct (stack_top fs) as (s & st0 & Hstk & Hs1 & Hs2 & Hdc & Hrc).
-  destruct e as [[w1 prop w2 vl w4 semi]|sel w2|w3|wc cb|wt tt tb|cw1 cname cw2 craw csemi|aw1 aname apre aw2 asemi|bw1 bname bpre bw2|ew3];
-    cbn [evs_ok] in Hok; cbn [map concat ev_toks] in Hw.
+  destruct e as [[w1 prop w2 vl w4 semi]|sel w2|w3|wc cb|wt tt tb|cw1 cname cw2 craw csemi|aw1 aname apre aw2 asemi|bw1 bname bpre bw2|ew3|uw ut ub];
+    cbn [evs_okm] in Hok; cbn [map concat ev_toks] in Hw; [| | | | | | | | |contradiction].
   - (* declaration *)
     destruct Hok as (Htop & (Hv & Hp & Hq) & Hsemi & Hok). cbn [d_vals d_semi] in *. specialize (Hdc Htop). rewrite Hstk in Hw.
     unfold decl_toks, term_toks in Hw. cbn [d_w1 d_prop d_w2 d_vals d_w4 d_semi] in Hw. destruct semi.
     + repeat (rewrite <- app_assoc in Hw; cbn [app] in Hw).
       destruct (step_decl p s st0 w1 prop w2 [58] vl w4 (TSemicolon, [59]) _ Hdc (or_introl eq_refl) Hw Hv Hp Hq) as (p1 & Hn & Ht & Hdd & Hb & He & Hw1).
       unfold wf_after in Hw1. cbn [fst] in Hw1. change (is_t TSemicolon TRightBrace) with false in Hw1. cbv beta iota in Hw1. rewrite <- Hstk in Hw1.
-      eapply (Hcons _ p1 _ fs Hn eq_refl He Hw1 Hok). unfold view. cbn [fst snd ev_unit d_prop d_vals]. rewrite Ht, Hdd, Hb. reflexivity.
+      eapply (Hcons _ p1 _ None fs Hn eq_refl He Hw1 Hok). unfold view. cbn [fst snd ev_unit d_prop d_vals]. rewrite Ht, Hdd, Hb. reflexivity.
     + specialize (Hsemi eq_refl). destruct evs as [|e2 evs']; [contradiction|]. cbn [closer_next] in Hsemi.
       destruct (closer_toks e2 Hsemi) as (w3 & Ew3). cbn [map concat] in Hw. rewrite Ew3 in Hw.
       repeat (rewrite <- app_assoc in Hw; cbn [app] in Hw).
@@ -1520,24 +1632,24 @@ Proof.
     + assert (Hnf : nest_first (t1, b1) = true) by (destruct fs as [|[| |] fs0]; cbn [decl_top] in Htop; try contradiction; exact Hf1).
       destruct (step_nested p s st0 o1 t1 b1 sl w2 [123] _ (Hdc Htop) Hw Hnf Hf2 Hf3) as (p1 & Hn & Ht & Hdd & Hb & He & Hw1).
       rewrite <- Hstk in Hw1. change (SQualifiedRuleDeclarationList :: stack fs) with (stack (FRule :: fs)) in Hw1.
-      eapply (Hcons _ p1 _ (FRule :: fs) Hn eq_refl He Hw1 Hok). unfold view. cbn [fst snd ev_unit]. rewrite Ht, Hdd, Hb. reflexivity.
+      eapply (Hcons _ p1 _ None (FRule :: fs) Hn eq_refl He Hw1 Hok). unfold view. cbn [fst snd ev_unit]. rewrite Ht, Hdd, Hb. reflexivity.
     + assert (Hsf : sel_first t1 = true) by (destruct fs as [|[| |] fs0]; cbn [decl_top] in Htop; try (exfalso; apply Htop; exact I); exact Hf1).
       destruct (step_begin p s st0 o1 t1 b1 sl w2 [123] _ (Hrc Htop) Hw Hsf Hf2 Hf3) as (p1 & Hn & Ht & Hdd & Hb & He & Hw1).
       rewrite <- Hstk in Hw1. change (SQualifiedRuleDeclarationList :: stack fs) with (stack (FRule :: fs)) in Hw1.
-      eapply (Hcons _ p1 _ (FRule :: fs) Hn eq_refl He Hw1 Hok). unfold view. cbn [fst snd ev_unit]. rewrite Ht, Hdd, Hb. reflexivity.
+      eapply (Hcons _ p1 _ None (FRule :: fs) Hn eq_refl He Hw1 Hok). unfold view. cbn [fst snd ev_unit]. rewrite Ht, Hdd, Hb. reflexivity.
   - (* '}' of a ruleset *)
     destruct fs as [|[| |] fs]; try contradiction. unfold stack in Hw. cbn [map app] in Hw.
     repeat (rewrite <- app_assoc in Hw; cbn [app] in Hw).
     destruct (step_close p FRule _ w3 [125] _ Hw) as (p1 & Hn & Ht & Hdd & He & Hw1).
-    eapply (Hcons _ p1 _ fs Hn eq_refl He Hw1 Hok). unfold view. cbn [fst snd ev_unit close_g]. rewrite Ht, Hdd. reflexivity.
+    eapply (Hcons _ p1 _ None fs Hn eq_refl He Hw1 Hok). unfold view. cbn [fst snd ev_unit close_g]. rewrite Ht, Hdd. reflexivity.
   - destruct Hok as (Hd & Hok). subst fs. unfold stack in Hw. cbn [map app] in Hw.
     repeat (rewrite <- app_assoc in Hw; cbn [app] in Hw).
     destruct (step_comment p wc cb _ Hw) as (p1 & Hn & Ht & Hdd & He & Hw1).
-    eapply (Hcons _ p1 _ [] Hn eq_refl He Hw1 Hok). unfold view. cbn [fst snd ev_unit]. rewrite Ht, Hdd. reflexivity.
+    eapply (Hcons _ p1 _ None [] Hn eq_refl He Hw1 Hok). unfold view. cbn [fst snd ev_unit]. rewrite Ht, Hdd. reflexivity.
   - destruct Hok as (Hd & Hcd & Hok). subst fs. unfold stack in Hw. cbn [map app] in Hw.
     repeat (rewrite <- app_assoc in Hw; cbn [app] in Hw).
     destruct (step_cd p wt tt tb _ Hw Hcd) as (p1 & Hn & Ht & Hdd & He & Hw1).
-    eapply (Hcons _ p1 _ [] Hn eq_refl He Hw1 Hok). unfold view. cbn [fst snd ev_unit]. rewrite Ht, Hdd. reflexivity.
+    eapply (Hcons _ p1 _ None [] Hn eq_refl He Hw1 Hok). unfold view. cbn [fst snd ev_unit]. rewrite Ht, Hdd. reflexivity.
   - (* custom property *)
     destruct Hok as (Htop & Hr1 & Hr2 & Hsemi & Hok).
     assert (Hcc : custom_ctx s).
@@ -1546,10 +1658,10 @@ Proof.
     + repeat (rewrite <- app_assoc in Hw; cbn [app] in Hw).
       destruct (step_custom p s st0 cw1 cname cw2 [58] craw (TSemicolon, [59]) _ Hdc (or_introl eq_refl) Hw Hr1 Hr2) as (p1 & Hn & Ht & Hdd & Hb & He & Hw1).
       unfold wf_after in Hw1. cbn [fst] in Hw1. change (is_t TSemicolon TRightBrace) with false in Hw1. cbv beta iota in Hw1. rewrite <- Hstk in Hw1.
-      eapply (Hcons _ p1 _ fs Hn eq_refl He Hw1 Hok). unfold view. cbn [fst snd ev_unit]. rewrite Ht, Hdd, Hb. reflexivity.
+      eapply (Hcons _ p1 _ None fs Hn eq_refl He Hw1 Hok). unfold view. cbn [fst snd ev_unit]. rewrite Ht, Hdd, Hb. reflexivity.
     + specialize (Hsemi eq_refl). destruct evs as [|e2 evs']; [contradiction|].
       assert (Hcl : closer e2 /\ ev_toks e2 = [(TRightBrace, [125])]).
-      { cbn [closer_tight] in Hsemi. destruct e2 as [| | [|] | | | | | | [|]]; try contradiction; split; try exact I; reflexivity. }
+      { cbn [closer_tight] in Hsemi. destruct e2 as [| | [|] | | | | | | [|] |]; try contradiction; split; try exact I; reflexivity. }
       destruct Hcl as (Hcl & Ew3). cbn [map concat] in Hw. rewrite Ew3 in Hw.
       repeat (rewrite <- app_assoc in Hw; cbn [app] in Hw).
       destruct (step_custom p s st0 cw1 cname cw2 [58] craw (TRightBrace, [125]) _ Hdc (or_intror eq_refl) Hw Hr1 Hr2) as (p1 & Hn & Ht & Hdd & Hb & He & Hw1).
@@ -1562,7 +1674,7 @@ Proof.
       destruct (step_at p s st0 aw1 aname apre aw2 (TSemicolon, [59]) _ Hs1 Hs2 Hw Hp1 Hp2 (or_introl (or_introl eq_refl))) as (p1 & Hn & Ht & Hdd & Hb & He & Hw1).
       cbn [fst] in Hn, Hw1. change (is_t TSemicolon TLeftBrace) with false in Hn, Hw1. cbv beta iota in Hn, Hw1.
       unfold wf_after in Hw1. cbn [fst] in Hw1. change (is_t TSemicolon TRightBrace) with false in Hw1. cbv beta iota in Hw1. rewrite <- Hstk in Hw1.
-      eapply (Hcons _ p1 _ fs Hn eq_refl He Hw1 Hok). unfold view. cbn [fst snd ev_unit]. rewrite Ht, Hdd, Hb. reflexivity.
+      eapply (Hcons _ p1 _ None fs Hn eq_refl He Hw1 Hok). unfold view. cbn [fst snd ev_unit]. rewrite Ht, Hdd, Hb. reflexivity.
     + destruct (Hsemi eq_refl) as (Hfs & Hcn). destruct evs as [|e2 evs']; [contradiction|]. cbn [closer_next] in Hcn.
       destruct (closer_toks e2 Hcn) as (w3 & Ew3). cbn [map concat] in Hw. rewrite Ew3 in Hw.
       repeat (rewrite <- app_assoc in Hw; cbn [app] in Hw).
@@ -1578,22 +1690,24 @@ Proof.
     cbn [fst] in Hn, Hw1. change (is_t TLeftBrace TLeftBrace) with true in Hn, Hw1. cbv beta iota in Hn, Hw1. rewrite <- Hstk in Hw1.
     destruct (at_st bname) eqn:Est; try contradiction.
     + change (SAtRuleRuleList :: stack fs) with (stack (FAtRules :: fs)) in Hw1.
-      eapply (Hcons _ p1 _ (FAtRules :: fs) Hn eq_refl He Hw1 Hok). unfold view. cbn [fst snd ev_unit]. rewrite Ht, Hdd, Hb. reflexivity.
+      eapply (Hcons _ p1 _ None (FAtRules :: fs) Hn eq_refl He Hw1 Hok). unfold view. cbn [fst snd ev_unit]. rewrite Ht, Hdd, Hb. reflexivity.
     + change (SAtRuleDeclarationList :: stack fs) with (stack (FAtDecls :: fs)) in Hw1.
-      eapply (Hcons _ p1 _ (FAtDecls :: fs) Hn eq_refl He Hw1 Hok). unfold view. cbn [fst snd ev_unit]. rewrite Ht, Hdd, Hb. reflexivity.
+      eapply (Hcons _ p1 _ None (FAtDecls :: fs) Hn eq_refl He Hw1 Hok). unfold view. cbn [fst snd ev_unit]. rewrite Ht, Hdd, Hb. reflexivity.
+    + assert (Hwu : wf_m (Some (0, true)) p1 fs (concat (map ev_toks evs) ++ rest)) by exact Hw1.
+      eapply (Hcons _ p1 _ (Some (0, true)) fs Hn eq_refl He Hwu Hok). unfold view. cbn [fst snd ev_unit]. rewrite Ht, Hdd, Hb. reflexivity.
   - (* '}' of an at-rule block *)
     destruct fs as [|[| |] fs]; try contradiction; unfold stack in Hw; cbn [map app] in Hw;
       repeat (rewrite <- app_assoc in Hw; cbn [app] in Hw).
     + destruct (step_close p FAtRules _ ew3 [125] _ Hw) as (p1 & Hn & Ht & Hdd & He & Hw1).
-      eapply (Hcons _ p1 _ fs Hn eq_refl He Hw1 Hok). unfold view. cbn [fst snd ev_unit close_g]. rewrite Ht, Hdd. reflexivity.
+      eapply (Hcons _ p1 _ None fs Hn eq_refl He Hw1 Hok). unfold view. cbn [fst snd ev_unit close_g]. rewrite Ht, Hdd. reflexivity.
     + destruct (step_close p FAtDecls _ ew3 [125] _ Hw) as (p1 & Hn & Ht & Hdd & He & Hw1).
-      eapply (Hcons _ p1 _ fs Hn eq_refl He Hw1 Hok). unfold view. cbn [fst snd ev_unit close_g]. rewrite Ht, Hdd. reflexivity.
+      eapply (Hcons _ p1 _ None fs Hn eq_refl He Hw1 Hok). unfold view. cbn [fst snd ev_unit close_g]. rewrite Ht, Hdd. reflexivity.
 Qed.
 
 Lemma evs_run evs fs p rest : wf_state p (stack fs) (concat (map ev_toks evs) ++ rest) -> evs_ok fs evs ->
   exists tr, parse_run (length evs) p = POk tr /\ map view tr = map ev_unit evs /\ no_err tr /\
     wf_state (last_state p tr) [SStylesheet] rest.
-Proof. apply (evs_run_n (length evs)). lia. Qed.
+Proof. apply (evs_run_n (length evs) evs None). lia. Qed.
 
 Lemma parse_run_snoc : forall a p tr1 r, parse_run a p = POk tr1 -> parse_next (last_state p tr1) = POk r ->
   parse_run (a + 1) p = POk (tr1 ++ [r]).
@@ -1783,4 +1897,25 @@ Example wellformed_example_brace :
 Proof.
   cbv zeta. split; [vm_compute; reflexivity|]. split; [|vm_compute; reflexivity].
   repeat (first [discriminate | reflexivity | lia | left; exact I | split | exact I | vm_compute; reflexivity | intros _ | intros ?]).
+Qed.
+
+(* "@foo x{ a b;{c}}d{}" : the block of an unknown at-rule is a stream of Token units; the whitespace directly after the '{'
+   is skipped, later whitespace is a token of its own; a '}' inside nested braces is a token, the one at level 0 ends
+   the block *)
+Example wellformed_example_unknown :
+  let evs := [EBeginAtRule None [64; 102; 111; 111] [(Some [32], (TIdent, [120]))] None;
+              EUTok (Some [32]) TIdent [97]; EUTok None TWhitespace [32]; EUTok None TIdent [98]; EUTok None TSemicolon [59];
+              EUTok None TLeftBrace [123]; EUTok None TIdent [99]; EUTok None TRightBrace [125]; EEndAtRule None;
+              EOpen [(None, (TIdent, [100]))] None; EClose None] in
+  css_lex [64; 102; 111; 111; 32; 120; 123; 32; 97; 32; 98; 59; 123; 99; 125; 125; 100; 123; 125] =
+    LexDone (concat (map ev_toks evs) ++ optws None) /\
+  evs_ok [] evs /\
+  map ev_unit evs =
+    [(GBeginAtRule, TAtKeyword, [64; 102; 111; 111], [sp; (TIdent, [120])]);
+     (GToken, TIdent, [97], []); (GToken, TWhitespace, [32], []); (GToken, TIdent, [98], []); (GToken, TSemicolon, [59], []);
+     (GToken, TLeftBrace, [123], []); (GToken, TIdent, [99], []); (GToken, TRightBrace, [125], []); (GEndAtRule, TRightBrace, [125], []);
+     (GBeginRuleset, TWhitespace, [], [(TIdent, [100])]); (GEndRuleset, TRightBrace, [125], [])].
+Proof.
+  cbv zeta. split; [vm_compute; reflexivity|]. split; [|vm_compute; reflexivity].
+  unfold evs_ok. cbn [evs_okm]. repeat (first [discriminate | reflexivity | lia | left; exact I | split | exact I | vm_compute; reflexivity | intros _ | intros ?]).
 Qed.
